@@ -22,7 +22,16 @@ type Cfg struct {
 	U         int    `json:"U"`
 	L         int    `json:"L"`
 	Faultfree string `json:"faultfree"`
+	Junk      int    `json:"junk,omitempty"`    // loop modes: well-formed JSON that is no envelope precedes envelope number Junk
+	JunkLen   int    `json:"junklen,omitempty"` // its size in units
+	Trace     string `json:"trace,omitempty"`   // loop modes: "y" = a TraceWriter is installed
 }
+
+// a trace writer that discards what it is given
+type nullTrace struct{ s, r io.Writer }
+
+func (t *nullTrace) SendWriter() *io.Writer    { return &t.s }
+func (t *nullTrace) ReceiveWriter() *io.Writer { return &t.r }
 
 type Step struct {
 	R string `json:"r"`
@@ -401,6 +410,11 @@ func ReplayLoop(c Case, dial bool) Result {
 			res.Note = err.Error()
 			return res
 		}
+		if c.Cfg.Junk == k && c.Cfg.JunkLen > 0 {
+			// a JSON object of the given size that is not an envelope: rejected, and the stream goes on
+			n := c.Cfg.U * c.Cfg.JunkLen
+			stream = append(stream, []byte(`{"zz":"`+strings.Repeat("j", n-10)+`"}`+"\n")...)
+		}
 		stream = append(stream, enc...)
 		segs = append(segs, [3]int{k, 0, len(enc)})
 		res.Actual = append(res.Actual, Event{K: "send", Env: k, Res: "ok", Segs: [][3]int{}})
@@ -409,6 +423,9 @@ func ReplayLoop(c Case, dial bool) Result {
 	ctx, cancel := context.WithTimeout(context.Background(), 10*time.Second)
 	defer cancel()
 	cfg := &lime.TCPConfig{ReadLimit: int64(c.Cfg.L)}
+	if c.Cfg.Trace == "y" {
+		cfg.TraceWriter = &nullTrace{s: io.Discard, r: io.Discard}
+	}
 	var rcv lime.Transport
 	var raw net.Conn
 	if dial {
@@ -478,10 +495,15 @@ func ReplayLoop(c Case, dial bool) Result {
 		}
 	}()
 	failed := false
-	for i := 0; i < len(c.Cfg.Lens)+4; i++ {
+	junkSeen := c.Cfg.Junk == 0
+	for i := 0; i < len(c.Cfg.Lens)+5; i++ {
 		e, err := rcv.Receive(ctx)
 		if err != nil {
 			res.Actual = append(res.Actual, Event{K: "recv", Res: "err", Segs: [][3]int{}})
+			if !junkSeen {
+				junkSeen = true // the rejection of the junk item: the caller keeps using the transport
+				continue
+			}
 			if failed {
 				break
 			}
